@@ -124,6 +124,18 @@ func c09hist(c *Ctx) {
 				if hr.P(10) {
 					runtime.GC()
 				}
+				// the global flags are inputs of a call: records of the history may be formatted under other
+				// flags (caller, privacy paths, date/time); the probe's flags are restored before the probe
+				if hr.P(25) {
+					for _, fl := range []slog.Flags{slog.Lcaller, slog.Lprivacypath, slog.Lprivacypathregexp, slog.Ldate, slog.Lmicroseconds, slog.LlocalTime, slog.Lcallerpackagename} {
+						if hr.Bool() {
+							slog.AddFlags(fl)
+						} else {
+							slog.RemoveFlags(fl)
+						}
+					}
+					c.R.Add("history_records_under_other_flags", 1)
+				}
 				if hr.P(15) {
 					var wg sync.WaitGroup
 					wg.Add(1)
@@ -138,6 +150,7 @@ func c09hist(c *Ctx) {
 				}
 			}
 			histCtx := lastCtx
+			slog.SetFlags(flagsNow)
 			got := emit(p)
 			c.R.Add("probe_executions", 1)
 			if lastCtx == histCtx {
